@@ -256,6 +256,9 @@ def run(prop, tier, seed, replay=None):
             m["property"] = "Converges (<>[]Synced) under FairSpec"
         models.append(m)
         cover.update(r.coverage)
+        # vlib's pattern misses actions that are called with arguments ("<Submit line .. (195 13 195 52)>: n:m")
+        for mm in re.finditer(r"^<(\w+) line [^>]*>: (\d+):(\d+)", r.raw, re.M):
+            cover[mm.group(1)] = max(cover.get(mm.group(1), 0), int(mm.group(3)))
     models.append(dict(cfg="Discovery.gen.quick.cfg" if quick else "Discovery.gen.cfg", states=g.distinct,
                        transitions=g.generated, role="behaviour generation (descriptive model)", wall_s=round(g.wall, 1)))
     if not quick:
@@ -267,9 +270,7 @@ def run(prop, tier, seed, replay=None):
     # 3. self-test of the oracle binding: a sabotaged ADAPTER (timestamp read after the rows) must be caught
     st = vlib.run_driver(binary, dict(common, scripts=selftest_scripts(), sabotage="ts-after-rows"), timeout=300)
     caught = [r["id"] for r in st if any(v["kind"] == "converge-missing" and v["site"] == "other" for v in r["violations"])]
-    if len(caught) != len(st) or not st:
-        raise Inconclusive("oracle self-test failed: a response whose timestamp was read after its rows was not reported "
-                           "as a lost entry (%s)" % json.dumps(st)[:1500])
+    selftest_ok = bool(st) and len(caught) == len(st)
 
     phases["vacuity+selftest"] = round(time.time() - t1 - phases["driver+models"], 1)
     # 4. verdicts from the real observables
@@ -278,6 +279,11 @@ def run(prop, tier, seed, replay=None):
         rep.inconclusive.append("%d of %d scripts produced no result" % (len(scripts) - len(results), len(scripts)))
     elif ninc <= max(2, len(results) // 50):
         rep.inconclusive = []
+
+    if not selftest_ok:
+        # never masks a violation seen on the real code (Report.finish gives violations precedence)
+        rep.inconclusive.append("oracle self-test failed: a response whose timestamp was read after its rows was not reported as a "
+                                "lost entry: %s" % json.dumps([{k: v for k, v in r.items() if k != "trace"} for r in st])[:800])
 
     # 5. recorded traces of the real code are validated by TLC against the specification
     good = [r for r in results if r.get("trace") and not r.get("error")]
